@@ -164,7 +164,7 @@ PROPS["C04"] = {
     "level": "proof",
     "technique": "Verus contracts on the real cost code (constants, subtract_cost, interned_vbytes, unknown-condition cost indexing) plus exhaustive native evaluation of the 2-byte cost table against the closed form; pre-charge accounting and cost conservation in parse_conditions / process_single_spend; cost at the exits of run_spendbundle, run_block_generator2, the legacy run_block_generator and parse_spends (unit drivers); native evaluation of exact-limit obligations (budget == cost passes, cost - 1 fails) per cost class on both paths",
     "level_text": "Deductive proof of the cost constants, of subtract_cost (succeeds iff the charge fits, exact at the limit, frame on failure), of interned_vbytes == sum(atom_len)+2*atoms+3*pairs, and of the low-byte indexing of the unknown-condition table; the 65536 values of compute_unknown_condition_cost are decided exhaustively by evaluating the real function against an independent big-integer closed form.",
-    "level_note": "parse_conditions' accounting is proved: the three accumulators (limit, bundle, spend) move by exactly the table cost of each condition, charged before its arguments are parsed, with CostExceeded exactly when the charge does not fit; SPEND_COST in process_single_spend. The driver exits are proved in unit drivers: run_spendbundle and run_block_generator2 report exactly generator size cost (serialized length minus the quote wrapper, resp. program length, resp. interned virtual bytes, times cost_per_byte) + CLVM execution cost + condition cost, never more than the limit, every charge through subtract_cost, under the cost-conservation contract of process_single_spend proved in unit conditions_aggsig. CLVM execution cost is whatever run_program returns (assumed <= the budget it was given). Exactness of the limit end to end (a budget equal to the cost passes, one less fails) is a relation between two runs: decided on ground bundles on both paths with and without COST_CONDITIONS (task paths_ground), since a one-directional contract cannot see a test that rejects too early.",
+    "level_note": "parse_conditions' accounting is proved: the three accumulators (limit, bundle, spend) move by exactly the table cost of each condition, charged before its arguments are parsed, with CostExceeded exactly when the charge does not fit; SPEND_COST in process_single_spend. The driver exits are proved in unit drivers: run_spendbundle and run_block_generator2 report exactly generator size cost (serialized length minus the quote wrapper, resp. program length, resp. interned virtual bytes, times cost_per_byte) + CLVM execution cost + condition cost, never more than the limit, every charge through subtract_cost, under the cost-conservation contract of process_single_spend proved in unit conditions_aggsig. CLVM execution cost is whatever run_program returns (assumed <= the budget it was given when that budget is positive; clvmr reads a budget of 0 as no limit, for which only a physical bound of 2^62 cost units is assumed; run_spendbundle's contract requires max_cost <= 2^62). Exactness of the limit end to end (a budget equal to the cost passes, one less fails) is a relation between two runs: decided on ground bundles on both paths with and without COST_CONDITIONS (task paths_ground), since a one-directional contract cannot see a test that rejects too early.",
     "components": [V("costs"), V("conditions_effects"), N("native_cost_table", "cost_table"), V("drivers"), N("native_paths_ground", "paths_ground")],
     "assumptions": [
         "clvmr cost model (run_program's reported cost) and intern_tree contract",
